@@ -538,3 +538,12 @@ CHECKS["C01"]["text"] += (
     "configurations) are recorded with the decoded file content at every "
     "close and judged by TLC against WriterTrace (binding self-test: a "
     "dropped event must be rejected).")
+CHECKS["C08"]["text"] += (
+    " Tasks include condense without basin features (reference: the input "
+    "read with basins disabled); condense must carry the file basin "
+    "definitions over; one input has an internal basin that offers only an "
+    "image-shaped feature and precedes the file basin.")
+CHECKS["C17"]["text"] += (
+    " Two pool members pass the keyword arguments of downsample_grid in "
+    "different orders with different bindings whose values, read in call "
+    "order, coincide.")
